@@ -141,7 +141,10 @@ def composite_key(desc):
     """The first two columns, when the description asks for a composite
     UNIQUE constraint and every pair of their values is distinct (each
     column on its own may well repeat)."""
-    if desc.get('key') != 'unique' or len(desc['cols']) < 2:
+    if desc.get('key') not in ('unique', 'primary') or len(desc['cols']) < 2:
+        return None
+    if desc['key'] == 'primary' and any('PRIMARY KEY' in c.get('decl', '')
+                                        for c in desc['cols']):
         return None
     a, b = desc['cols'][0], desc['cols'][1]
     pairs = [(sql_value(a['kind'], x), sql_value(b['kind'], y))
@@ -160,7 +163,10 @@ def create_db(desc, path):
                      for c in desc['cols'])
     key = composite_key(desc)
     if key:
-        cols += ', UNIQUE(%s)' % ', '.join(quote_ident(k) for k in key)
+        # (a composite PRIMARY KEY of an ordinary table may hold NULLs)
+        cols += ', %s(%s)' % (
+            'PRIMARY KEY' if desc['key'] == 'primary' else 'UNIQUE',
+            ', '.join(quote_ident(k) for k in key))
     con.execute('CREATE TABLE t (%s)' % cols)
     rows = []
     for i in range(desc['n']):
